@@ -637,6 +637,11 @@ class Flow:
                        for x in argl[0]}
             elif std and nm in ELEMENT_OF_ARG0 and argl:
                 res = {self.ext(x, '[*]') for x in argl[0]}
+                # a constant index is kept as a separate leaf (which element was selected)
+                if len(argl) > 1:
+                    for x in argl[1]:
+                        if x.startswith('const:') or x.startswith('lit:'):
+                            res.add('idx:' + x.split(':', 1)[1])
             elif std and nm in TRANSPARENT_ARG0 and argl:
                 res = set(argl[0])
                 # higher-order adaptors keep their closure's effect
